@@ -64,6 +64,41 @@ pub fn base_plan(quick: bool) -> SweepPlan {
     }
 }
 
+/// F-CORNER signatures: white king a1, black king h8 (or c3, next to the corner), three further men.
+/// `n` = how many of the own x enemy-pair signatures (0 = all of them plus the two-own-men ones).
+pub fn corner_sigs(n: usize) -> Vec<(u8, u8, Vec<families::Man>)> {
+    let (w, b) = (Color::W, Color::B);
+    let mut v: Vec<(u8, u8, Vec<families::Man>)> = vec![];
+    let pairs = [(Kind::R, Kind::P), (Kind::Q, Kind::N), (Kind::B, Kind::P), (Kind::Q, Kind::P), (Kind::R, Kind::B), (Kind::N, Kind::P), (Kind::Q, Kind::R), (Kind::B, Kind::N), (Kind::R, Kind::N), (Kind::Q, Kind::B), (Kind::P, Kind::P), (Kind::R, Kind::R), (Kind::Q, Kind::Q), (Kind::B, Kind::B), (Kind::N, Kind::N)];
+    let owns = [Kind::Q, Kind::R, Kind::P, Kind::B, Kind::N];
+    // diagonal order through the (own, pair) table, so that a short prefix already mixes the kinds
+    let mut k = 0;
+    'outer: for d in 0..(owns.len() + pairs.len()) {
+        for (i, own) in owns.iter().enumerate() {
+            if d < i || d - i >= pairs.len() {
+                continue;
+            }
+            let (x, y) = pairs[d - i];
+            v.push((0, 63, vec![(w, *own), (b, x), (b, y)]));
+            k += 1;
+            if n > 0 && k >= n {
+                break 'outer;
+            }
+        }
+    }
+    if n == 0 {
+        for (a, c) in [(Kind::Q, Kind::P), (Kind::R, Kind::P), (Kind::B, Kind::N), (Kind::P, Kind::P), (Kind::R, Kind::R)] {
+            for e in [Kind::Q, Kind::R, Kind::B, Kind::N, Kind::P] {
+                v.push((0, 63, vec![(w, a), (w, c), (b, e)]));
+            }
+        }
+        v.push((0, 18, vec![(w, Kind::Q), (b, Kind::R), (b, Kind::P)]));
+        v.push((0, 18, vec![(w, Kind::N), (b, Kind::B), (b, Kind::P)]));
+        v.push((0, 18, vec![(w, Kind::P), (b, Kind::P), (b, Kind::R)]));
+    }
+    v
+}
+
 pub fn ep_extras_all() -> Vec<Option<families::Man>> {
     let mut v: Vec<Option<families::Man>> = vec![None];
     for c in [Color::W, Color::B] {
@@ -99,6 +134,7 @@ fn c01(run: &Run) -> i32 {
     if !run.quick() {
         plan.mat2 = sweep::men2_all();
     }
+    plan.corner = corner_sigs(if run.quick() { 4 } else { 0 });
     let (s, t) = sweep::run_plan(&ctx, &plan);
     sweep::sample_states(run);
     for f in ["in_check", "double_check", "ep_capture_available", "ep_adjacent_but_illegal", "castling_available", "castling_right_but_unavailable", "promotion_while_in_check", "checkmate", "stalemate"] {
@@ -143,6 +179,7 @@ fn generic_sweep(run: &Run, prop: &str) -> i32 {
         }
         _ => {}
     }
+    plan.corner = corner_sigs(if run.quick() { 2 } else { 20 });
     let (s, t) = sweep::run_plan(&ctx, &plan);
     sweep::sample_states(run);
     let _ = Origin::Built(String::new());
@@ -250,6 +287,7 @@ fn c02_c03_c15(run: &Run, prop: &str) -> i32 {
         plan.castle_enemy = vec![vec![Kind::R], vec![Kind::B], vec![Kind::Q], vec![Kind::N]];
     }
     plan.heavy = Some((9, 10, 10));
+    plan.corner = corner_sigs(if run.quick() { 2 } else { 30 });
     let (mut s, mut t) = sweep::run_plan(&ctx, &plan);
     // E2: nested make / null / take-back sequences
     let om = OpMon { rules: prop == "C02", key: prop == "C03", accum: prop == "C15", draws: false, nulls: true };
@@ -541,22 +579,7 @@ fn c10(run: &Run) -> i32 {
     plan1.mat1 = vec![];
     plan1.promo = true;
     plan1.ep_extra = if run.quick() { vec![None] } else { vec![None, Some((Color::B, Kind::B)), Some((Color::B, Kind::R))] };
-    let (w, b) = (Color::W, Color::B);
-    let a1h8 = |men: Vec<families::Man>| (0u8, 63u8, men);
-    plan1.corner = vec![a1h8(vec![(w, Kind::Q), (b, Kind::R), (b, Kind::P)]), a1h8(vec![(w, Kind::R), (b, Kind::Q), (b, Kind::N)])];
-    if !run.quick() {
-        for own in [Kind::Q, Kind::R, Kind::B, Kind::N, Kind::P] {
-            for (x, y) in [(Kind::Q, Kind::P), (Kind::R, Kind::B), (Kind::R, Kind::P), (Kind::B, Kind::N), (Kind::N, Kind::P), (Kind::Q, Kind::R)] {
-                let item = a1h8(vec![(w, own), (b, x), (b, y)]);
-                if !plan1.corner.contains(&item) {
-                    plan1.corner.push(item);
-                }
-            }
-        }
-        // the enemy king next to the corner takes the flight squares
-        plan1.corner.push((0, 18, vec![(w, Kind::Q), (b, Kind::R), (b, Kind::P)]));
-        plan1.corner.push((0, 18, vec![(w, Kind::N), (b, Kind::B), (b, Kind::P)]));
-    }
+    plan1.corner = corner_sigs(if run.quick() { 2 } else { 0 });
     let (s1, _) = sweep::run_plan(&ctx1, &plan1);
     s += s1;
     let streams = run.counter("picker_streams");
